@@ -389,10 +389,12 @@ impl<W: Write> WdtWriter<W> {
 /// Convert ADT tile coordinates to world coordinates
 pub fn tile_to_world(tile_x: u32, tile_y: u32) -> (f32, f32) {
     const MAP_SIZE: f32 = 533.333_3;
-    const MAP_OFFSET: f32 = 32.0 * MAP_SIZE;
 
-    let world_x = MAP_OFFSET - (tile_y as f32 * MAP_SIZE);
-    let world_y = MAP_OFFSET - (tile_x as f32 * MAP_SIZE);
+    // (32 - index) is exact in f32, so a single rounding happens (in the product) and
+    // `world_to_tile` recovers the index exactly. Subtracting two rounded products
+    // instead left some corners a hair on the wrong side of the tile boundary.
+    let world_x = (32.0 - tile_y as f32) * MAP_SIZE;
+    let world_y = (32.0 - tile_x as f32) * MAP_SIZE;
 
     (world_x, world_y)
 }
@@ -400,10 +402,9 @@ pub fn tile_to_world(tile_x: u32, tile_y: u32) -> (f32, f32) {
 /// Convert world coordinates to ADT tile coordinates
 pub fn world_to_tile(world_x: f32, world_y: f32) -> (u32, u32) {
     const MAP_SIZE: f32 = 533.333_3;
-    const MAP_OFFSET: f32 = 32.0 * MAP_SIZE;
 
-    let tile_x = ((MAP_OFFSET - world_y) / MAP_SIZE) as u32;
-    let tile_y = ((MAP_OFFSET - world_x) / MAP_SIZE) as u32;
+    let tile_x = (32.0 - world_y / MAP_SIZE) as u32;
+    let tile_y = (32.0 - world_x / MAP_SIZE) as u32;
 
     (tile_x.min(63), tile_y.min(63))
 }
